@@ -10,6 +10,8 @@ B-ORDER  the reference orientation of a simplex is fixed before its faces are en
 B-EDGE   in the order-1 branch the two entries have opposite parity and the positive one goes to the larger vertex.
 B-FACE   each face is looked up by its member set (frozenset), all order+1 faces of combinations(simplex, size-1) are stored
          (no break/continue/conditional store in the face loop).
+B-ADDR   (K1/K2/K5 of the kind engine over hodge_matrix.py) the row of a face and its orientation are looked up by the face's
+         simplex ID, never by its position in the edge list.
 B-HODGE  hodge_laplacian is B_k^T B_k + B_{k+1} B_{k+1}^T with both boundary matrices built from the same orientations.
 The identity on concrete complexes, PSD-ness and kernel dimension are NOT decided.
 """
@@ -29,7 +31,7 @@ PROP = "C13"
 def run(ctx):
     repo = ctx.repo
     res = Result(PROP)
-    res.rules = ["B-SIGN", "B-ORDER", "B-EDGE", "B-FACE", "B-HODGE"]
+    res.rules = ["B-SIGN", "B-ORDER", "B-EDGE", "B-FACE", "B-HODGE", "K1", "K2", "K5"]
     res.explanation = (
         "Narrow claim: the sign exponent of the boundary matrix is extracted from the source by def-use and evaluated in the "
         "parity domain (16 abstract states); the ordering that fixes the reference orientation must be unique and precede "
@@ -45,6 +47,11 @@ def run(ctx):
     check_edge_branch(repo, res, bm)
     check_hodge(repo, res, mi.functions["hodge_laplacian"])
     check_subfaces_order(repo, res)
+    # addressing: simplex IDs vs positions (an ID->row map or the orientations dict indexed with a position puts the
+    # entries of a face into another simplex's row whenever IDs are not 0..m-1 in insertion order)
+    from .kind_rules import functions_of, run_kinds
+
+    run_kinds(ctx, res, PROP, functions_of(repo, [], exact=("xgi.linalg.hodge_matrix",)), 8, 3)
     return res
 
 
